@@ -16,7 +16,7 @@ open VaxisModel.Gen.Keys VaxisModel.Lemmas.GoInterp
 /-- Names that must not be shadowed by local variables while `decodeKey` runs. -/
 def dkFresh : List String :=
   ["ModShift", "ModAlt", "ModCtrl", "ModCapsLock", "ModNumLock", "KeyTab", "KeyBackspace", "KeyEnter", "KeyEsc",
-   "KeyUp", "KeyDown", "KeyRight", "KeyLeft", "KeyEnd", "KeyHome", "KeyF01", "KeyF02", "KeyF03", "KeyF04", "specialsKeys"]
+   "KeyUp", "KeyDown", "KeyRight", "KeyLeft", "KeyKeyPadBegin", "KeyEnd", "KeyHome", "KeyF01", "KeyF02", "KeyF03", "KeyF04", "specialsKeys"]
 
 /-- The environment holds the fields of the local `key` (as the flattened names `key.F`). -/
 structure KeyEnv (E : Env) (key : Key) : Prop where
@@ -46,7 +46,7 @@ macro_rules
     · intro xfr hxfr
       have hfx := ($h).fresh xfr hxfr
       simp only [dkFresh, List.mem_cons, List.not_mem_nil, or_false] at hxfr
-      rcases hxfr with rfl | rfl | rfl | rfl | rfl | rfl | rfl | rfl | rfl | rfl | rfl | rfl | rfl | rfl | rfl | rfl | rfl | rfl | rfl | rfl <;>
+      rcases hxfr with rfl | rfl | rfl | rfl | rfl | rfl | rfl | rfl | rfl | rfl | rfl | rfl | rfl | rfl | rfl | rfl | rfl | rfl | rfl | rfl | rfl <;>
         simpa [List.lookup] using hfx))
 
 theorem binop_add_str (x y : Str) : binop .add (.str x) (.str y) = .str (x ++ y) := rfl
@@ -151,6 +151,8 @@ def ss3Body : Ss := (Ss.ofList [
             (.assign .set (Es.ofList [(.var "key.Keycode")]) (Es.ofList [(.var "KeyRight")]))])),
           ((Es.ofList [(.int 68)]), (Ss.ofList [
             (.assign .set (Es.ofList [(.var "key.Keycode")]) (Es.ofList [(.var "KeyLeft")]))])),
+          ((Es.ofList [(.int 69)]), (Ss.ofList [
+            (.assign .set (Es.ofList [(.var "key.Keycode")]) (Es.ofList [(.var "KeyKeyPadBegin")]))])),
           ((Es.ofList [(.int 70)]), (Ss.ofList [
             (.assign .set (Es.ofList [(.var "key.Keycode")]) (Es.ofList [(.var "KeyEnd")]))])),
           ((Es.ofList [(.int 72)]), (Ss.ofList [
@@ -254,7 +256,7 @@ theorem keyEnv_armEnv (fields : List (String × V)) (inner : V) (s : Seq)
       revert hx; decide
     rw [hl _ hne, hf _ (by simp [hx])]
     simp only [dkFresh, List.mem_cons, List.not_mem_nil, or_false] at hx
-    rcases hx with rfl | rfl | rfl | rfl | rfl | rfl | rfl | rfl | rfl | rfl | rfl | rfl | rfl | rfl | rfl | rfl | rfl | rfl | rfl | rfl <;> rfl
+    rcases hx with rfl | rfl | rfl | rfl | rfl | rfl | rfl | rfl | rfl | rfl | rfl | rfl | rfl | rfl | rfl | rfl | rfl | rfl | rfl | rfl | rfl <;> rfl
 
 theorem arm_print (u : Uni) (g : Str) (E : Env) (o : Str) (h : KeyEnv E {}) (hg : E.lookup "seq.Grapheme" = some (.str g)) :
     ∃ E', execSs (ctx u noFuncs) printBody { env := E, out := o } = .norm { env := E', out := o } ∧
@@ -382,6 +384,7 @@ theorem arm_ss3 (u : Uni) (b : Int) (hb : toRune b = b) (E : Env) (o : Str) (h :
   have f2 := h.fresh "KeyRight" (by simp [dkFresh])
   have f3 := h.fresh "KeyLeft" (by simp [dkFresh])
   have f4 := h.fresh "KeyEnd" (by simp [dkFresh])
+  have fB := h.fresh "KeyKeyPadBegin" (by simp [dkFresh])
   have f5 := h.fresh "KeyHome" (by simp [dkFresh])
   have f6 := h.fresh "KeyF01" (by simp [dkFresh])
   have f7 := h.fresh "KeyF02" (by simp [dkFresh])
@@ -390,9 +393,9 @@ theorem arm_ss3 (u : Uni) (b : Int) (hb : toRune b = b) (E : Env) (o : Str) (h :
   unfold ss3Body
   simp only [Ss.ofList, Es.ofList, Cs.ofList, execSs_cons, execSs_nil, execS, evalE, evalEs, hs, callFn_rune, hb, andThen_norm,
     execCs, execDefault, labelHit, binop_eq_int, isTrue_bool, Bool.or_false, decide_eq_true_eq,
-    lhsNames, Option.map, f0, f1, f2, f3, f4, f5, f6, f7, f8, f9, ctx_consts, const_KeyUp, const_KeyDown, const_KeyRight, const_KeyLeft, const_KeyEnd, const_KeyHome, const_KeyF01, const_KeyF02, const_KeyF03, const_KeyF04,
+    lhsNames, Option.map, f0, f1, f2, f3, f4, fB, f5, f6, f7, f8, f9, ctx_consts, const_KeyKeyPadBegin, const_KeyUp, const_KeyDown, const_KeyRight, const_KeyLeft, const_KeyEnd, const_KeyHome, const_KeyF01, const_KeyF02, const_KeyF03, const_KeyF04,
     assignVals, hasErr, Bool.false_eq_true, reduceIte, List.length, bindAll, VaxisModel.Model.GoInterp.bind, String.reduceEq, or_self,
-    @eq_comm _ (65 : Int) b, @eq_comm _ (66 : Int) b, @eq_comm _ (67 : Int) b, @eq_comm _ (68 : Int) b, @eq_comm _ (70 : Int) b, @eq_comm _ (72 : Int) b, @eq_comm _ (80 : Int) b, @eq_comm _ (81 : Int) b, @eq_comm _ (82 : Int) b, @eq_comm _ (83 : Int) b]
+    @eq_comm _ (65 : Int) b, @eq_comm _ (66 : Int) b, @eq_comm _ (67 : Int) b, @eq_comm _ (68 : Int) b, @eq_comm _ (69 : Int) b, @eq_comm _ (70 : Int) b, @eq_comm _ (72 : Int) b, @eq_comm _ (80 : Int) b, @eq_comm _ (81 : Int) b, @eq_comm _ (82 : Int) b, @eq_comm _ (83 : Int) b]
   simp only [decodeRaw, lookup, ss3Keys]
   by_cases h65 : b = 65
   · simp only [h65, Int.reduceEq, reduceIte, afterSwitch_norm, andThen_norm, KeyUp]
@@ -405,6 +408,9 @@ theorem arm_ss3 (u : Uni) (b : Int) (hb : toRune b = b) (E : Env) (o : Str) (h :
     exact ⟨_, rfl, by keyenv h⟩
   by_cases h68 : b = 68
   · simp only [h68, Int.reduceEq, reduceIte, afterSwitch_norm, andThen_norm, KeyLeft]
+    exact ⟨_, rfl, by keyenv h⟩
+  by_cases h69 : b = 69
+  · simp only [h69, Int.reduceEq, reduceIte, afterSwitch_norm, andThen_norm, KeyKeyPadBegin]
     exact ⟨_, rfl, by keyenv h⟩
   by_cases h70 : b = 70
   · simp only [h70, Int.reduceEq, reduceIte, afterSwitch_norm, andThen_norm, KeyEnd]
@@ -424,7 +430,7 @@ theorem arm_ss3 (u : Uni) (b : Int) (hb : toRune b = b) (E : Env) (o : Str) (h :
   by_cases h83 : b = 83
   · simp only [h83, Int.reduceEq, reduceIte, afterSwitch_norm, andThen_norm, KeyF04]
     exact ⟨_, rfl, by keyenv h⟩
-  simp only [h65, h66, h67, h68, h70, h72, h80, h81, h82, h83, reduceIte, afterSwitch_norm]
+  simp only [h65, h66, h67, h68, h69, h70, h72, h80, h81, h82, h83, reduceIte, afterSwitch_norm]
   exact ⟨_, rfl, h⟩
 
 /-! ### The CSI arm -/
